@@ -3,6 +3,8 @@ package rules
 import (
 	"go/token"
 	"go/types"
+	"strconv"
+	"strings"
 
 	"golang.org/x/tools/go/ssa"
 
@@ -541,4 +543,182 @@ func (c *Ctx) recursionDepthPaired(rule string) {
 		}
 	}
 	R.Min(rule, "EnterRecursion call sites", n, 2)
+}
+
+// parseErrorsKeepTheTag (R11.9): once the tag of a line is known, a refusal of the line carries it.
+func (c *Ctx) parseErrorsKeepTheTag(rule string) {
+	P, R := c.P, c.R
+	R.Explain(rule, "every complete line is answered with its own tag: in command.(*Parser).Parse every error return that lies after the successful parse of the tag returns a Command whose Tag field has been assigned on every path to that return (directly, or copied from a Command for which that holds); the session answers a failed line with response.Bad(<that Command's Tag>), so an error return of the empty Command after the tag is known makes the server answer an untagged BAD and the client never sees the completion of its command.")
+	f := c.fn(rule, "imap/command.(*Parser).Parse")
+	if f == nil {
+		return
+	}
+	tagFld := c.fieldOf("imap/command", "Command", "Tag")
+	// nil-error edge of parseTag
+	var tagIf *ssa.BasicBlock
+	tagNilIx := 0
+	for _, cs := range engine.Calls(f) {
+		sc := cs.Common().StaticCallee()
+		if sc == nil || engine.ShortName(sc) != "parseTag" {
+			continue
+		}
+		call, ok := cs.Instr.(*ssa.Call)
+		if !ok {
+			continue
+		}
+		for _, r := range *call.Referrers() {
+			ex, ok := r.(*ssa.Extract)
+			if !ok || ex.Type().String() != "error" {
+				continue
+			}
+			for _, r2 := range *ex.Referrers() {
+				bin, ok := r2.(*ssa.BinOp)
+				if !ok {
+					continue
+				}
+				for _, r3 := range *bin.Referrers() {
+					if iff, ok := r3.(*ssa.If); ok {
+						tagIf = iff.Block()
+						tagNilIx = 1
+						if bin.Op == token.EQL {
+							tagNilIx = 0
+						}
+					}
+				}
+			}
+		}
+	}
+	if tagIf == nil || tagFld == nil {
+		R.Fail(rule, c.name(f)+"|tag parse", P.Pos(f.Pos()), "Parse no longer parses the tag through parseTag with an error test: the rule cannot be evaluated")
+		return
+	}
+	// assigned: on every path from the successful tag parse to `at`, a store to a.Tag is passed; a store that
+	// copies another Command's Tag only counts if that Command's Tag is assigned at the store in the same sense
+	var assigned func(a *ssa.Alloc, at ssa.Instruction, d int) bool
+	assigned = func(a *ssa.Alloc, at ssa.Instruction, d int) bool {
+		if d > 3 {
+			return false
+		}
+		cut := map[ssa.Instruction]bool{}
+		for _, b := range f.Blocks {
+			for _, in := range b.Instrs {
+				st, ok := in.(*ssa.Store)
+				if !ok {
+					continue
+				}
+				fa, ok := st.Addr.(*ssa.FieldAddr)
+				if !ok || fa.X != ssa.Value(a) || fieldOfAddr(fa) != tagFld {
+					continue
+				}
+				if ld, ok := st.Val.(*ssa.UnOp); ok && ld.Op == token.MUL {
+					if fa2, ok := ld.X.(*ssa.FieldAddr); ok && fieldOfAddr(fa2) == tagFld {
+						if a2, ok := fa2.X.(*ssa.Alloc); ok && !assigned(a2, st, d+1) {
+							continue
+						}
+					}
+				}
+				cut[st] = true
+			}
+		}
+		if len(cut) == 0 {
+			return false
+		}
+		return !engine.ReachesAvoidingFrom(tagIf.Succs[tagNilIx], 0, at, cut, nil)
+	}
+	n := 0
+	for _, ret := range engine.Returns(f) {
+		lr := engine.LastResult(ret)
+		if lr == nil || engine.IsNilConst(lr) || !engine.EdgeDominates(tagIf, tagNilIx, ret.Block()) {
+			continue
+		}
+		n++
+		ok := false
+		if ld, isLd := engine.ResultOf(ret, 0).(*ssa.UnOp); isLd && ld.Op == token.MUL {
+			if a, isA := ld.X.(*ssa.Alloc); isA {
+				ok = assigned(a, ret, 0)
+			}
+		}
+		R.Check(ok, rule, c.name(f)+"|error return#"+strconv.Itoa(n)+" keeps the tag", P.Pos(ret.Pos()), "the returned Command's Tag was assigned", "an error return after the tag was parsed hands back a Command without the tag: the line is answered with an untagged BAD")
+	}
+	R.Min(rule, "error returns of Parse after the tag is known", n, 3)
+}
+
+// nilEncodingIsRefused (R11.10): an IANA charset without implementation is (nil, nil), not an error.
+func (c *Ctx) nilEncodingIsRefused(rule string) {
+	P, R := c.P, c.R
+	R.Explain(rule, "a client-chosen charset cannot crash the server: (*ianaindex.Index).Encoding returns (nil, nil) for charsets IANA lists but golang.org/x/text does not implement (UTF-7, UTF-32, ...); every use of its first result is dominated by the non-nil edge of a nil test of that result (the error test alone is not enough) - otherwise SEARCH CHARSET UTF-7 dereferences nil in the handler and the panic ends the process for all sessions.")
+	n := 0
+	for _, f := range c.productFuncs() {
+		for _, cs := range engine.Calls(f) {
+			sc := cs.Common().StaticCallee()
+			if sc == nil || sc.Name() != "Encoding" || !strings.Contains(engine.PkgPathOf(sc), "ianaindex") {
+				continue
+			}
+			call, ok := cs.Instr.(*ssa.Call)
+			if !ok {
+				continue
+			}
+			var enc *ssa.Extract
+			for _, r := range *call.Referrers() {
+				if ex, ok := r.(*ssa.Extract); ok && ex.Index == 0 {
+					enc = ex
+				}
+			}
+			if enc == nil {
+				continue
+			}
+			n++
+			// non-nil edges
+			type edge struct {
+				b  *ssa.BasicBlock
+				ix int
+			}
+			var nonNil []edge
+			var uses []ssa.Instruction
+			for _, r := range *enc.Referrers() {
+				switch t := r.(type) {
+				case *ssa.DebugRef:
+				case *ssa.BinOp:
+					if (t.Op == token.EQL || t.Op == token.NEQ) && (engine.IsNilConst(t.X) || engine.IsNilConst(t.Y)) {
+						for _, r2 := range *t.Referrers() {
+							if iff, ok := r2.(*ssa.If); ok {
+								ix := 0
+								if t.Op == token.EQL {
+									ix = 1
+								}
+								nonNil = append(nonNil, edge{iff.Block(), ix})
+							}
+						}
+						continue
+					}
+					uses = append(uses, r)
+				default:
+					uses = append(uses, r)
+				}
+			}
+			bad := ""
+			for _, u := range uses {
+				ok := false
+				for _, e := range nonNil {
+					if engine.EdgeDominates(e.b, e.ix, u.Block()) {
+						ok = true
+					}
+				}
+				// `err != nil || enc == nil` short-circuits: the use is dominated by the false edge of the merged test
+				if !ok {
+					for _, e := range nonNil {
+						// the non-nil successor leads (only) to the use's dominators
+						if engine.BlocksReachableFrom(e.b.Succs[e.ix])[u.Block()] && !engine.BlocksReachableFrom(e.b.Succs[1-e.ix])[u.Block()] {
+							ok = true
+						}
+					}
+				}
+				if !ok {
+					bad = P.Pos(u.Pos())
+				}
+			}
+			R.Check(bad == "" && len(uses) > 0, rule, c.name(f)+"|ianaindex Encoding result", P.Pos(call.Pos()), "every use follows a non-nil test", "the encoding returned by ianaindex is used ("+bad+") without a nil test: a charset without implementation dereferences nil and the panic takes the server down")
+		}
+	}
+	R.Min(rule, "lookups of a client-named charset", n, 1)
 }
